@@ -409,6 +409,8 @@ theorem runW_eq {σ : Type} (cfg : Config) (ex : Exec σ) (s0 : σ) (script : Li
 def ValOK (c : Codec) (env : Env) (v : Val) : Prop :=
   v.wf c = true ∧ v.depth ≤ env.depth ∧ v.arr ≤ maxNesting
 
+instance (c : Codec) (env : Env) (v : Val) : Decidable (ValOK c env v) := by unfold ValOK; infer_instance
+
 theorem codec_good_fixed (c : Codec) (h : c = codec1 ∨ c = codec2) : c.Good ∧ c.Fixed maxNesting := by
   cases h with
   | inl h => subst h; exact ⟨codec1_good, codec1_fixed⟩
